@@ -32,7 +32,7 @@ Record case := mk {
   panicked : bool
 }.
 
-Definition FUEL : nat := N.to_nat 20000.
+Definition FUEL : nat := Eval vm_compute in N.to_nat 10000.
 
 Definition zz_eqb (a b : Z * Z) : bool := Z.eqb (fst a) (fst b) && Z.eqb (snd a) (snd b).
 Definition lzz_eqb := list_eqb zz_eqb.
